@@ -201,21 +201,23 @@ structure AddRelPost (w : World) (fl : List Nat) (e : Ent) (ids : List Comp)
   tablesLen : w'.tables.length ≤ w.tables.length + 1
   entitiesLen : w'.entities.length = w.entities.length
 
-/-- **C04, assignment by `Add`**: an accepted `Add(e, ids…, rels…)` through any path for a live
-    entity `e` — `rels` names relation components among `ids`, none twice — no observers: all
-    invariants are kept, `e` has the targets named and keeps its old targets, components and
-    (unwritten) values, no other entity changes. -/
-theorem opAdd_rel_spec (run : ProbeRunner) (p : Path) {w : World} {fl : List Nat} (h : TInv w fl)
+/-- the two halves of `opAdd_rel_valid` / `opAdd_rel_spec` in one proof: an accepted call named
+    only zero or alive targets (whatever their IDs), and — if the IDs of the targets lie inside the
+    pool slice — `AddRelPost` -/
+theorem opAdd_rel_core (run : ProbeRunner) (p : Path) {w : World} {fl : List Nat} (h : TInv w fl)
     (hl : w.isLocked = false) (hno : ∀ (evt : Nat), w.obs.hasObservers evt = false) {e : Ent}
-    (h2 : 2 ≤ e.id) (hnf : e.id ∉ fl) (ha : w.alive e = true) {ids : List Comp}
+    (h2 : 2 ≤ e.id) (hnf : e.id ∉ fl) (ha : w.alive e = true) (hsl : e.id < w.pool.ents.length)
+    {ids : List Comp}
     {vals : List (Comp × Val)} {rels : List RelID}
     (hreg : ∀ (c : Comp), c ∈ ids → c < w.kinds.length)
     (hnd : (rels.map (·.comp)).Nodup) (hin : ∀ (r : RelID), r ∈ rels → r.comp ∈ ids)
     (hrc : ∀ (r : RelID), r ∈ rels → w.isRelComp r.comp = true)
     (hfew : w.tables.length < maxU32) (hrows : w.entities.length + 1 < 2 ^ 32)
     {w' : World} (hok : opAdd run p e ids vals rels w = .ok () w') :
-    AddRelPost w fl e ids vals rels w' := by
-  obtain ⟨oldT, row, he, htm, _⟩ := h.link.live_entry h2 hnf ha
+    (∀ (r : RelID), r ∈ rels → r.target.isZero = true ∨ w.alive r.target = true) ∧
+    ((∀ (r : RelID), r ∈ rels → r.target.id < w.pool.ents.length) →
+      AddRelPost w fl e ids vals rels w') := by
+  obtain ⟨oldT, row, he, htm, _⟩ := h.link.live_entry h2 hnf ha hsl
   have hix := index_of_get he
   have hI := h.link.idx
   obtain ⟨hT, hrow, hid⟩ := hI.indexed he htm
@@ -310,12 +312,13 @@ theorem opAdd_rel_spec (run : ProbeRunner) (p : Path) {w : World} {fl : List Nat
       obtain ⟨i, _, k2, k3⟩ := hcolOf r (List.mem_append_right _ hr) (hrc r hr)
       have := ar.rel.aux.targets newT _ hTt foc.tblFree i k2
       rw [k3, hal1] at this; exact this
+    refine ⟨hvalid, fun htin => ?_⟩
     have mt := movedTail (rels := rels) mask ar.rel ar.flags ar.freeEmpty link1 he1 htm hne'
       foc.tblLt foc.tblFree hof1 hb1 (by
         intro r hr hz
         rcases hvalid r hr with k | k
         · rw [k] at hz; cases hz
-        · have := h.link.alive_lt k
+        · have := h.link.lt_of_in (htin r hr)
           rw [hu.isTarget, h.link.tgtLen]; exact this)
     -- the normal form of the call
     have hcore := addCore_rel_eq e ids rels w hl ha hemp hix hf
@@ -463,6 +466,40 @@ theorem opAdd_rel_spec (run : ProbeRunner) (p : Path) {w : World} {fl : List Nat
       refine ⟨(s1.trans s2).trans ⟨(hwf.1 j hj).1, (hwf.1 j hj).2⟩, fun c => ?_⟩
       rw [htgt4, g2, g1]
 
+/-- **an accepted `Add(e, ids…, rels…)` named only zero or alive targets** (no condition on the
+    IDs of the targets) -/
+theorem opAdd_rel_valid (run : ProbeRunner) (p : Path) {w : World} {fl : List Nat} (h : TInv w fl)
+    (hl : w.isLocked = false) (hno : ∀ (evt : Nat), w.obs.hasObservers evt = false) {e : Ent}
+    (h2 : 2 ≤ e.id) (hnf : e.id ∉ fl) (ha : w.alive e = true) (hsl : e.id < w.pool.ents.length)
+    {ids : List Comp}
+    {vals : List (Comp × Val)} {rels : List RelID}
+    (hreg : ∀ (c : Comp), c ∈ ids → c < w.kinds.length)
+    (hnd : (rels.map (·.comp)).Nodup) (hin : ∀ (r : RelID), r ∈ rels → r.comp ∈ ids)
+    (hrc : ∀ (r : RelID), r ∈ rels → w.isRelComp r.comp = true)
+    (hfew : w.tables.length < maxU32) (hrows : w.entities.length + 1 < 2 ^ 32)
+    {w' : World} (hok : opAdd run p e ids vals rels w = .ok () w') :
+    ∀ (r : RelID), r ∈ rels → r.target.isZero = true ∨ w.alive r.target = true :=
+  (opAdd_rel_core run p h hl hno h2 hnf ha hsl hreg hnd hin hrc hfew hrows hok).1
+
+/-- **C04, assignment by `Add`**: an accepted `Add(e, ids…, rels…)` through any path for a live
+    entity `e` (ID inside the pool slice) — `rels` names relation components among `ids`, none
+    twice, with targets whose IDs lie inside the pool slice — no observers: all invariants are kept,
+    `e` has the targets named and keeps its old targets, components and (unwritten) values, no
+    other entity changes. -/
+theorem opAdd_rel_spec (run : ProbeRunner) (p : Path) {w : World} {fl : List Nat} (h : TInv w fl)
+    (hl : w.isLocked = false) (hno : ∀ (evt : Nat), w.obs.hasObservers evt = false) {e : Ent}
+    (h2 : 2 ≤ e.id) (hnf : e.id ∉ fl) (ha : w.alive e = true) (hsl : e.id < w.pool.ents.length)
+    {ids : List Comp}
+    {vals : List (Comp × Val)} {rels : List RelID}
+    (hreg : ∀ (c : Comp), c ∈ ids → c < w.kinds.length)
+    (hnd : (rels.map (·.comp)).Nodup) (hin : ∀ (r : RelID), r ∈ rels → r.comp ∈ ids)
+    (hrc : ∀ (r : RelID), r ∈ rels → w.isRelComp r.comp = true)
+    (htin : ∀ (r : RelID), r ∈ rels → r.target.id < w.pool.ents.length)
+    (hfew : w.tables.length < maxU32) (hrows : w.entities.length + 1 < 2 ^ 32)
+    {w' : World} (hok : opAdd run p e ids vals rels w = .ok () w') :
+    AddRelPost w fl e ids vals rels w' :=
+  (opAdd_rel_core run p h hl hno h2 hnf ha hsl hreg hnd hin hrc hfew hrows hok).2 htin
+
 /-- **rejection** (typed paths): `Add` naming a dead target is refused with `deadTarget`, the
     world unchanged -/
 theorem opAdd_deadTarget (run : ProbeRunner) (p : Path) (hp : p ≠ .unsafe_) (e : Ent)
@@ -484,6 +521,7 @@ theorem Good.add (run : ProbeRunner) (p : Path) {w : World} (h : Good w) {e : En
     (hreg : ∀ (c : Comp), c ∈ ids → c < w.kinds.length)
     (hnd : (rels.map (·.comp)).Nodup) (hin : ∀ (r : RelID), r ∈ rels → r.comp ∈ ids)
     (hrc : ∀ (r : RelID), r ∈ rels → w.isRelComp r.comp = true)
+    (htin : ∀ (r : RelID), r ∈ rels → r.target.id < w.pool.ents.length)
     (hfew : w.tables.length < maxU32) (hrows : w.entities.length + 1 < 2 ^ 32)
     (hnp : panicOf (opAdd run p e ids vals rels w) = none) :
     Good (opAdd run p e ids vals rels w).state := by
@@ -493,7 +531,8 @@ theorem Good.add (run : ProbeRunner) (p : Path) {w : World} (h : Good w) {e : En
       Option.getD_some]
   obtain ⟨h2, hnf⟩ := ht.link.indexed_live hent hidx
   obtain ⟨u, hr⟩ := ok_of_panicOf hnp
-  have post := opAdd_rel_spec run p ht hl hno h2 hnf ha hreg hnd hin hrc hfew hrows hr
+  have post := opAdd_rel_spec run p ht hl hno h2 hnf ha (by rw [← ht.link.lenEq]; exact hlt)
+    hreg hnd hin hrc htin hfew hrows hr
   exact ⟨fl, post.tinv, by show (opAdd run p e ids vals rels w).state.locks.isLocked = false
                            rw [post.locks]; exact hl,
     fun evt => by rw [post.obs]; exact hno evt⟩
